@@ -725,3 +725,39 @@ Proof.
   split; [exact S1|]. split; assumption.
 Qed.
 
+
+(* an unflattened_size of length 1 changes nothing: the identity undoes it (what the repaired _reverse_unflatten does) *)
+Theorem undoes_unflatten1 d z sh ysh :
+  nonneg sh -> shape_of (CUnflatten d [z]) sh = Some ysh -> undoes (CUnflatten d [z]) CIdentity sh ysh.
+Proof.
+  intros Hnn Hs. assert (Hs0 := Hs). cbn [shape_of] in Hs.
+  destruct (unflatten_dims sh d [z]) as [[d' sz']|] eqn:Hd; [|discriminate]. cbn [option_map fst snd] in Hs. injection Hs as Hy.
+  assert (Hd2 := Hd). unfold unflatten_dims in Hd2. destruct (in_range d (zlen sh)) eqn:Er; [|discriminate].
+  destruct (infer [z] (nthZ sh (norm d (zlen sh)) 0)) as [r|] eqn:Ei; [|discriminate]. injection Hd2 as <- <-.
+  apply norm_range in Er. set (d' := norm d (zlen sh)) in *.
+  pose proof (nth_split1 sh (Z.to_nat d') ltac:(unfold zlen in Er; lia)) as E.
+  assert (Hm0 : 0 <= nthZ sh d' 0).
+  { unfold nonneg in Hnn. rewrite Forall_forall in Hnn. apply Hnn. unfold nthZ. apply nth_In. unfold zlen in Er. lia. }
+  destruct (infer_spec _ _ _ Hm0 Ei) as [Hprod [_ Hlr]].
+  destruct r as [|m [|? ?]]; try (cbn in Hlr; lia).
+  assert (Em : m = nthZ sh d' 0) by (cbn in Hprod; lia).
+  set (A := firstn (Z.to_nat d') sh) in *. set (B := skipn (S (Z.to_nat d')) sh) in *.
+  assert (LA : List.length A = Z.to_nat d') by (subst A; rewrite firstn_length; unfold zlen in Er; lia).
+  assert (Ed : d' = zlen A) by (unfold zlen; lia).
+  unfold nthZ in Em. rewrite <- Em in E.
+  assert (Hyy : ysh = sh).
+  { rewrite <- Hy. unfold sh_unflatten. fold A. replace (Z.to_nat (d' + 1)) with (S (Z.to_nat d')) by lia. fold B. symmetry. exact E. }
+  clear Hy Hs0. subst ysh.
+  assert (P : forall iA iB x, List.length iA = List.length A ->
+              push (CUnflatten d [z]) sh (iA ++ [x] ++ iB) = Some (iA ++ [x] ++ iB)).
+  { intros iA iB x LiA. rewrite E. rewrite (push_unflatten_dec A B m iA iB x [z] [m] d LiA).
+    - cbn [unravel]. change (prodZ []) with 1. now rewrite Z.div_1_r.
+    - rewrite <- E, <- Ed. exact Hd. }
+  split; [reflexivity|]. split; intros i Hv.
+  - assert (Hv' := Hv). rewrite E in Hv'. destruct (valid_dec A [m] B i Hv') as [iA [iM [iB [-> [LiA [LM _]]]]]].
+    destruct iM as [|x [|? ?]]; try (cbn in LM; lia).
+    exists (iA ++ [x] ++ iB). split; [now apply P|]. split; [exact Hv|reflexivity].
+  - assert (Hv' := Hv). rewrite E in Hv'. destruct (valid_dec A [m] B i Hv') as [iA [iM [iB [-> [LiA [LM _]]]]]].
+    destruct iM as [|x [|? ?]]; try (cbn in LM; lia).
+    exists (iA ++ [x] ++ iB). split; [reflexivity|]. split; [exact Hv|now apply P].
+Qed.
